@@ -58,7 +58,15 @@ type Group struct {
 	Elements []any `xml:""` // circle, rect, ...
 }
 
-func (g *Group) setAttr(a Attr)          { g.Attr = a }
+func (g *Group) setAttr(a Attr) {
+	// A grid group carries its own stroke colour, which the pen
+	// attributes must not replace.
+	stroke := g.Stroke
+	g.Attr = a
+	if stroke != "" {
+		g.Stroke = stroke
+	}
+}
 func (g *Group) setTextAttr(ta TextAttr) { g.TextAttr = ta }
 
 // Line represents an SVG line element <line>.
@@ -94,7 +102,18 @@ type Rect struct {
 	Height string  `xml:"height,attr"`
 }
 
-func (r *Rect) setAttr(a Attr) { r.Attr = a }
+func (r *Rect) setAttr(a Attr) {
+	// A clear rectangle carries its own colour, which the pen attributes
+	// must not replace.
+	fill, stroke := r.Fill, r.Stroke
+	r.Attr = a
+	if fill != "" {
+		r.Fill = fill
+	}
+	if stroke != "" {
+		r.Stroke = stroke
+	}
+}
 
 // Polyline represents an SVG polyline element <polyline>.
 type Polyline struct {
